@@ -32,11 +32,13 @@ def rpop (l : LList) (count : Int) : LList × Option (List Bytes) :=
 /-- `size()`: walks the chain -/
 def size (l : LList) : Int := l.items.length
 
-/-- `forEach(start, end, fn)` — the elements visited, in order -/
+/-- `forEach(start, end, fn)` — the elements visited, in order. Negative indexes count from the
+    tail, a start before the head is clamped to the head, then an empty window returns nothing. -/
 def forEach (l : LList) (start stop : Int) : List Bytes :=
-  if start ≠ 0 ∧ start ≥ stop then [] else
-  let start := if start < 0 then size l + start else start
-  let stop := if stop < 0 then size l + stop else stop
+  let n := size l
+  let start := if start < 0 then (if start + n < 0 then 0 else start + n) else start
+  let stop := if stop < 0 then stop + n else stop
+  if start > stop then [] else
   (l.items.zipIdx.filter fun (_, i) => start ≤ (i : Int) ∧ (i : Int) ≤ stop).map (·.1)
 
 def lrange (l : LList) (start stop : Int) : List Bytes := forEach l start stop
@@ -88,13 +90,15 @@ def lrem (l : LList) (count : Int) (value : Bytes) : LList × Int :=
     let c := l.items.length - xs.length
     ({ items := xs, length := l.length - c }, c)
 
-/-- `LSet(index, value)`: only non-negative positions are ever matched -/
+/-- `LSet(index, value)`: negative indexes count from the tail (cached length) -/
 def lset (l : LList) (index : Int) (value : Bytes) : LList × Bool :=
+  let index := if index < 0 then l.length + index else index
   if index < 0 ∨ index ≥ l.items.length then (l, false)
   else ({ l with items := l.items.set index.toNat value }, true)
 
 /-- `LTrim(start, end)` -/
 def ltrim (l : LList) (start stop : Int) : LList :=
+  let start := if start < 0 then size l + start else start
   let stop := if stop < 0 then size l + stop else stop
   let kept := (l.items.zipIdx.filter fun (_, i) => ¬ ((i : Int) < start ∨ (i : Int) > stop)).map (·.1)
   { items := kept, length := l.length - (l.items.length - kept.length : Nat) }
